@@ -273,6 +273,7 @@ getBucketEntry(Bucket *b, int i, char kind)
             }
 
             result = PyTuple_New(2);
+            VERIF_OBJ_FAULT(result);
             if (result)
             {
                 PyTuple_SET_ITEM(result, 0, key);
@@ -522,6 +523,7 @@ newBTreeItems(char kind,
 {
     BTreeItems *self;
 
+    VERIF_ALLOC_FAULT_RETURN(NULL);
     UNLESS (self = PyObject_NEW(BTreeItems, &BTreeItemsType))
         return NULL;
     self->kind=kind;
@@ -662,6 +664,7 @@ BTreeIter_new(BTreeItems *pitems)
     BTreeIter *result;
 
     assert(pitems != NULL);
+    VERIF_ALLOC_FAULT_RETURN(NULL);
     result = PyObject_New(BTreeIter, &BTreeIter_Type);
     if (result)
     {
